@@ -202,6 +202,120 @@ def run_harness(binp, args, timeout=2400):
             except ValueError: pass
     return rc, rows, out
 
+# ---------------------------------------------------------------- shrinking of a failing synthetic case
+def _map_ty(t, f):
+    """Apply f to every Local index inside a spec type; f returns a replacement Ty or None (keep)."""
+    if isinstance(t, dict):
+        (k, v), = t.items()
+        if k == "Local":
+            r = f(v)
+            return t if r is None else r
+        if k in ("Opt", "Vec"): return {k: _map_ty(v, f)}
+        if k == "Tuple": return {k: [_map_ty(x, f) for x in v]}
+    return t
+
+def _fields_of(body):
+    if isinstance(body, dict):
+        (k, v), = body.items()
+        if k in ("Plain", "Tuple"): return [v]
+        if k == "Enum":
+            out = []
+            for var in v:
+                b = var["body"]
+                if isinstance(b, dict):
+                    (_, fs), = b.items(); out.append(fs)
+            return out
+    return []
+
+def _drop_type(spec, i):
+    """Remove type i (>= 2): references become u8, effect entries mentioning it go, indices shift."""
+    sp = json.loads(json.dumps(spec))
+    def f(j):
+        if j == i: return {"Prim": "u8"}
+        if j > i: return {"Local": j - 1}
+        return None
+    del sp["types"][i]
+    for t in sp["types"]:
+        for fs in _fields_of(t["body"]):
+            for fld in fs: fld["ty"] = _map_ty(fld["ty"], f)
+    if sp["effect"] is not None:
+        sp["effect"] = [[a - (a > i), b - (b > i)] for a, b in sp["effect"] if a != i and b != i]
+    return sp
+
+def spec_candidates(spec):
+    """Smaller specs, most aggressive first."""
+    if spec["effect"]:
+        sp = json.loads(json.dumps(spec)); sp["effect"] = None; yield sp
+        for k in range(len(spec["effect"])):
+            sp = json.loads(json.dumps(spec)); del sp["effect"][k]; yield sp
+    for i in range(len(spec["types"]) - 1, 1, -1):
+        yield _drop_type(spec, i)
+    for i, t in enumerate(spec["types"]):
+        body = t["body"]
+        if isinstance(body, dict):
+            (k, v), = body.items()
+            for j in range(len(v)):
+                if len(v) > 1 or i > 1:
+                    sp = json.loads(json.dumps(spec)); del sp["types"][i]["body"][k][j]; yield sp
+            if k == "Enum":
+                for j, var in enumerate(v):
+                    if isinstance(var["body"], dict):
+                        sp = json.loads(json.dumps(spec)); sp["types"][i]["body"][k][j]["body"] = "Plain"; yield sp
+        for key in ("rename", "rename_all"):
+            if t.get(key) is not None:
+                sp = json.loads(json.dumps(spec)); sp["types"][i][key] = None; yield sp
+    for i, t in enumerate(spec["types"]):
+        for n, fs in enumerate(_fields_of(t["body"])):
+            for j, fld in enumerate(fs):
+                for key, val in (("skip", False), ("rename", None), ("bytes", False)):
+                    if fld.get(key):
+                        sp = json.loads(json.dumps(spec)); _fields_of(sp["types"][i]["body"])[n][j][key] = val; yield sp
+                if fld["ty"] != {"Prim": "u8"} and not (isinstance(fld["ty"], dict) and "Local" in fld["ty"]):
+                    sp = json.loads(json.dumps(spec)); _fields_of(sp["types"][i]["body"])[n][j]["ty"] = {"Prim": "u8"}; yield sp
+
+def synth_entry(c, px):
+    """(coq term, definitions) for one synthetic row; None when the untransformed run failed."""
+    if "ok" not in c["result"] or "items" not in c:
+        return None
+    defs, clash, todo = dump_defs(canonical(c), px)
+    obs = []
+    for j, r in enumerate(c["runs"]):
+        if "ok" not in r["result"]: obs.append("None")
+        elif r["result"]["ok"] == c["result"]["ok"]: obs.append("(Some %sreal_registry)" % px)
+        else:
+            defs.append("Definition %so%d : registry := %s." % (px, j, cregistry(r["result"]["ok"])))
+            obs.append("(Some %so%d)" % (px, j))
+    defs.append("Definition %sserde : registry := %s." % (px, cregistry(c.get("serde_expected", {}))))
+    return ("verdict_synth %sthe_dump %sedge_list %sedge_flags %sreal_registry %sserde %scrates %s" % (px, px, px, px, px, px, clist(obs)), defs)
+
+def shrink_synth(binp, case, budget=40):
+    """Greedy delta-debugging over the generator's spec: keep a smaller spec while the verdict stays 2."""
+    d = os.path.join(C.ALT or C.CACHE, "shrink-cli"); os.makedirs(d, exist_ok=True)
+    k = int(case.get("runs_requested", 3)) + (9 if case.get("ambiguous_names") else 0)
+    def verdict_of(spec):
+        fp = os.path.join(d, "spec.json"); json.dump(spec, open(fp, "w"))
+        rc, rows, _ = run_harness(binp, "synth-spec %s %d %s" % (fp, k, case["case_seed"]), timeout=120)
+        if rc != 0 or not rows: return None, None
+        ent = synth_entry(rows[0], "z_")
+        if ent is None: return None, rows[0]
+        text = "\n".join([CASE_HEADER] + ent[1] + ["Eval vm_compute in ([%s] : list N)." % ent[0]])
+        fv = os.path.join(d, "probe.v"); open(fv, "w").write(text)
+        rc, out = C.sh("coqc -noglob -Q %s Crux %s" % (C.COQ, fv), timeout=300, cwd=d)
+        m = re.search(r"=\s*\[([^\]]*)\]", out)
+        return (int(re.sub(r"%N", "", m.group(1)).strip()) if rc == 0 and m and m.group(1).strip() else None), rows[0]
+    best, best_row, probes = case["spec"], None, 0
+    progress = True
+    while progress and probes < budget:
+        progress = False
+        for cand in spec_candidates(best):
+            if probes >= budget: break
+            probes += 1
+            v, row = verdict_of(cand)
+            if v == 2:
+                best, best_row, progress = cand, row, True
+                break
+    return best, best_row, probes
+
 def run_harness_chunks(binp, mode, seed, count, extra="", nproc=1):
     """Several harness processes with seeds derived from the run seed (thorough tier)."""
     if nproc <= 1:
@@ -285,6 +399,9 @@ def check_C20(run, replay=None):
                 c = json.loads(l)
                 if c["kind"] == "synth":
                     rc, rows, _ = run_harness(binp, "synth-one %s %d" % (c["case_seed"], int(c.get("runs_requested", 3))))
+                elif c["kind"] == "spec":
+                    fp = os.path.join(C.ALT or C.CACHE, "corpus-spec-cli.json"); json.dump(c["spec"], open(fp, "w"))
+                    rc, rows, _ = run_harness(binp, "synth-spec %s %d %s" % (fp, int(c.get("k", 3)), c.get("seed", "1")))
                 else:
                     rc, rows, _ = run_harness(binp, "transform-one %s %s %d" % (c["fixture"], c["case_seed"], 1 if c.get("identity") else 0))
                 for r in rows: r["corpus"] = True
@@ -325,19 +442,10 @@ def check_C20(run, replay=None):
         entries.append(("edges", c, "verdict_edges %s.edge_list %s.real_registry %s %s" % (m, m, clist([str(p) for p in picks]), obs_term(tab, c["result"])), []))
     invalid_synth = []
     for n, c in enumerate(sy_rows):
-        if "ok" not in c["result"] or "items" not in c:
+        ent = synth_entry(c, "s%d_" % n)
+        if ent is None:
             invalid_synth.append(c); continue
-        px = "s%d_" % n
-        defs, clash, todo = dump_defs(canonical(c), px)
-        obs = []
-        for j, r in enumerate(c["runs"]):
-            if "ok" not in r["result"]: obs.append("None")
-            elif r["result"]["ok"] == c["result"]["ok"]: obs.append("(Some %sreal_registry)" % px)
-            else:
-                defs.append("Definition %so%d : registry := %s." % (px, j, cregistry(r["result"]["ok"])))
-                obs.append("(Some %so%d)" % (px, j))
-        defs.append("Definition %sserde : registry := %s." % (px, cregistry(c.get("serde_expected", {}))))
-        entries.append(("synth", c, "verdict_synth %sthe_dump %sedge_list %sedge_flags %sreal_registry %sserde %scrates %s" % (px, px, px, px, px, px, clist(obs)), defs))
+        entries.append(("synth", c, ent[0], ent[1]))
 
     nsh = 16 if len(entries) > 64 else 4
     shards = [entries[i::nsh] for i in range(nsh)]
@@ -397,9 +505,20 @@ def check_C20(run, replay=None):
     slim = lambda c: {k: v for k, v in c.items() if k not in ("items", "edges", "root", "field", "variant", "local_type_of", "containers", "picks")}
     size = lambda c: len(json.dumps(c.get("spec", c.get("pick_edges", ""))))
     bad_ok.sort(key=size); bad_model.sort(key=size)
+    shrunk = None
+    first_synth = next((c for c in bad_ok if c.get("kind") == "synth" and c.get("verdict") == 2), None)
+    if first_synth is not None:
+        try:
+            spec, row, probes = shrink_synth(binp, first_synth)
+            shrunk = {"spec": spec, "probes": probes, "types": len(spec["types"]),
+                      "result": (row or {}).get("result"), "serde_expected": (row or {}).get("serde_expected"),
+                      "runs": [(r.get("result")) for r in (row or {}).get("runs", [])][:3],
+                      "how_to_run": "write spec to a file; harness_cli cli_codegen synth-spec <file> <k> %s" % first_synth["case_seed"]}
+        except Exception as ex:
+            shrunk = {"error": repr(ex)}
     if bad_ok:
         run.violation("C20_ok", {"property": "C20", "what": "registry differs from the untransformed description's / is not closed / variant indices not contiguous / differs from the traced serde schema",
-                                 "cases": [slim(c) for c in bad_ok[:10]],
+                                 "cases": [slim(c) for c in bad_ok[:10]], "shrunk_first_synthetic_case": shrunk,
                                  "how_to_replay": "./check C20 --replay <this file> re-runs each transform case (fixture, case_seed) / synthetic case (case_seed) on the current tree: harness_cli cli_codegen transform-one <fixture> <case_seed> <identity> | synth-one <case_seed> <k>"})
     elif bad_model:
         run.violation("correspondence", {"property": "C20", "what": "model and implementation differ; C20_ok still holds on all implementation results seen",
